@@ -310,3 +310,19 @@ brk('C12', B, "                    if point not in approx_point_set:\n          
 
 # ---------------------------------------------------------------- C10 wrappers forward falsy arguments
 brk('C10', P, "        return scale(self, sx=sx, sy=sy, origin=origin)\n\n\nclass QuadraticBezier", "        return scale(self, sx=sx, sy=sy or sx, origin=origin)\n\n\nclass QuadraticBezier", 'Line.scaled replaces sy = 0 by sx')
+
+# ---------------------------------------------------------------- round 5: memoised whole-path answers, history independence, routes
+brk('C16', P, "    def isclosed(self):\n        \"\"\"This function determines if a connected path is closed.\"\"\"\n        assert len(self) != 0\n        assert self.iscontinuous()\n        return self.start == self.end", "    def isclosed(self):\n        \"\"\"This function determines if a connected path is closed.\"\"\"\n        assert len(self) != 0\n        if getattr(self, '_closed_memo', None) is None:\n            assert self.iscontinuous()\n            self._closed_memo = (self.start == self.end,)\n        return self._closed_memo[0]", 'isclosed memoised and never invalidated')
+brk('C16', P, "        bbs = [seg.bbox() for seg in self._segments]\n        xmins, xmaxs, ymins, ymaxs = list(zip(*bbs))\n        xmin = min(xmins)\n        xmax = max(xmaxs)\n        ymin = min(ymins)\n        ymax = max(ymaxs)\n        return xmin, xmax, ymin, ymax", "        if getattr(self, '_bbox_memo', None) is None:\n            bbs = [seg.bbox() for seg in self._segments]\n            xmins, xmaxs, ymins, ymaxs = list(zip(*bbs))\n            self._bbox_memo = (min(xmins), max(xmaxs), min(ymins), max(ymaxs))\n        return self._bbox_memo", 'Path.bbox memoised and never invalidated')
+ben('C16', P, "        bbs = [seg.bbox() for seg in self._segments]\n        xmins, xmaxs, ymins, ymaxs = list(zip(*bbs))\n        xmin = min(xmins)\n        xmax = max(xmaxs)\n        ymin = min(ymins)\n        ymax = max(ymaxs)\n        return xmin, xmax, ymin, ymax", "        boxes = [seg.bbox() for seg in self._segments]\n        return (min(b[0] for b in boxes), max(b[1] for b in boxes), min(b[2] for b in boxes), max(b[3] for b in boxes))", 'Path.bbox with generator expressions')
+brk('C19', B, "    t1 = 1-t\n    return [n_choose_k(n, k) * t1**(n-k) * t**k for k in range(n+1)]", "    t1 = 1-t\n    row = _ROWS.setdefault(max(_ROWS), [1])\n    while len(row) <= n:\n        row.append(1)\n        for k in range(len(row) - 2, 0, -1):\n            row[k] += row[k - 1]\n    return [row[k] * t1**(n-k) * t**k for k in range(n+1)]\n\n\n_ROWS = {0: [1]}", 'bernstein reads one shared, growing row of Pascal triangle: lower degrees asked later get the wrong row')
+brk('C19', 'polytools.py', "    return polyroots(p, realroots=True, condition=lambda tval: 0 <= tval <= 1)", "    p = list(p.coeffs) if isinstance(p, np.poly1d) else list(p)\n    while len(p) > 1 and isclose(p[0], 0):\n        p = p[1:]\n    return polyroots(p, realroots=True, condition=lambda tval: 0 <= tval <= 1)", 'polyroots01 drops small leading coefficients')
+ben('C19', 'polytools.py', "    return polyroots(p, realroots=True, condition=lambda tval: 0 <= tval <= 1)", "    inside = lambda tval: 0 <= tval <= 1\n    return polyroots(p, condition=inside, realroots=True)", 'polyroots01 names its condition')
+brk('C13', P, "    return path.radialrange(pt)[0]", "    best = None\n    for k, seg in enumerate(path):\n        d, t = seg.radialrange(pt)[0]\n        if best is None or d < best[0] - 1:\n            best = (d, t, k)\n    return best", 'closest point loop keeps an earlier segment unless the new one is closer by more than 1')
+ben('C13', P, "    return path.radialrange(pt)[0]", "    best = None\n    for k, seg in enumerate(path):\n        d, t = seg.radialrange(pt)[0]\n        if best is None or d < best[0]:\n            best = (d, t, k)\n    return best", 'closest point by an own loop over the segments')
+brk('C17', 'document.py', "        return flattened_paths_from_group(group, self.tree.getroot(), recursive,\n                                          group_filter, path_filter, path_conversions)", "        return flattened_paths_from_group(group, group, recursive,\n                                          group_filter, path_filter, path_conversions)", 'paths_from_group expresses paths in the frame of the group, not of the document')
+brk('C18', 'document.py', "    while stack:\n        top = stack.pop()\n\n        # For each element type that we know how to convert into path\n        # data, parse the element after confirming that the path_filter\n        # accepts it.\n        for key, converter in path_conversions.items():\n            for path_elem in filter(path_filter, top.group.iterfind(\n                    'svg:'+key, SVG_NAMESPACE)):\n                path_tf = top.transform.dot(\n                    parse_transform(path_elem.get('transform')))\n                path = transform(parse_path(converter(path_elem)), path_tf)", "    seen = {}\n    while stack:\n        top = stack.pop()\n\n        for key, converter in path_conversions.items():\n            for path_elem in filter(path_filter, top.group.iterfind(\n                    'svg:'+key, SVG_NAMESPACE)):\n                path_tf = top.transform.dot(\n                    parse_transform(path_elem.get('transform')))\n                d = converter(path_elem)\n                if d not in seen:\n                    seen[d] = parse_path(d)\n                path = transform(seen[d], path_tf)", 'parsed geometry shared between elements with equal data')
+brk('C04', P, "        self.center = exp(1j*self.phi)*cp + (self.start + self.end)/2", "        self.center = exp(1j*self.phi)*cp + (self.start + self.end)/2\n        if rx == ry:\n            self.phi = 0.0", 'circles lose their rotation angle inside _parameterize')
+brk('C15', P, "    dseg = seg.derivative(t)\n\n    # Note: dseg might be numpy value", "    if t == 0 and np.isclose(seg.bpoints()[1], seg.bpoints()[0]):\n        return (seg.bpoints()[2] - seg.bpoints()[0])/abs(seg.bpoints()[2] - seg.bpoints()[0])\n    dseg = seg.derivative(t)\n\n    # Note: dseg might be numpy value", 'start tangent skips a control point that is merely near the start')
+brk('C03', P, "        return self.poly()(ts)\n\n    def length(self, t0=0, t1=1, error=None, min_depth=None):\n        if t0 == 1 and t1 == 0:\n            if self._length_info['bpoints'] == self.bpoints():", "        ts = np.asarray(ts)\n        return np.where(ts >= 1, self.end, self.poly()(ts))\n\n    def length(self, t0=0, t1=1, error=None, min_depth=None):\n        if t0 == 1 and t1 == 0:\n            if self._length_info['bpoints'] == self.bpoints():", 'QuadraticBezier.points clamps parameters beyond 1 to the end point')
+brk('C07', P, "        return inv_arclength(self, s, s_tol=s_tol, maxits=maxits, error=error,\n                             min_depth=min_depth)\n\n    def bpoints(self):\n        \"\"\"returns the Bezier control points of the segment.\"\"\"\n        return self.start, self.control, self.end", "        if (self.control - self.start).real*(self.end - self.start).imag == (self.control - self.start).imag*(self.end - self.start).real and self.end != self.start:\n            full = self.length(error=error, min_depth=min_depth)\n            if not 0 <= s <= full:\n                raise ValueError('s is not in interval [0, curve.length()].')\n            return s/full\n        return inv_arclength(self, s, s_tol=s_tol, maxits=maxits, error=error,\n                             min_depth=min_depth)\n\n    def bpoints(self):\n        \"\"\"returns the Bezier control points of the segment.\"\"\"\n        return self.start, self.control, self.end", 'straight quadratic treated as uniformly parameterised')
